@@ -8,6 +8,25 @@ COMMON_ASSUME = [
 ]
 
 PROPS = {
+    "C15": {
+        "units": [
+            {"pkg": "./c15", "shards": 8, "shards_thorough": 16, "timeout": 900},
+            {"pkg": "./mainpkg", "run": "^TestC15", "shards": 2, "shards_thorough": 4, "timeout": 900},
+        ],
+        "fuzz": [{"pkg": "./c15", "target": "FuzzC15Properties", "time": "180s"}, {"pkg": "./c15", "target": "FuzzC15Environ", "time": "180s"}],
+        "rule": ("the option list (name, type) is extracted at run time from config/load.go of the tree under test; for EVERY option and EVERY unordered pair of the four sources (command line in -k=v / -k v / --k=v form, "
+                 "FABIO_-prefixed variable, plain variable - both in random letter case -, properties file via -cfg with =, :, blank separators and escaped backslashes) rapid draws well-formed values of the option's "
+                 "type (bool spellings, ints incl. hex/negative, durations, floats, string/float lists with blanks, free strings with spaces = # ! quotes backslashes non-ASCII, and grammar-based values for proxy.addr, "
+                 "ui.addr, proxy.cs, proxy.auth, bgp.peers incl. invalid ones). Oracle: Load(o=v in s1) == Load(o=v in s2) (reflect.DeepEqual, regexps by source, error iff error); precedence: v1 in the higher and v2 in "
+                 "the lower source == v1 alone, for every ordered pair, plus random 1-4 source chains; robustness: arbitrary environment blocks (entries without '=', empty names, NUL, invalid UTF-8, junk values for typed "
+                 "options) and properties files (self references, bad escapes, junk) give (cfg,nil) or (nil,err), never a panic; accepted configs never carry glob.cache.size <= 0; run-ability: accepted configs are "
+                 "handed to main.go's newHTTPProxy/newGrpcProxy and serve requests in-process without panic. Non-trivial = equivalence/precedence case whose value changes the resulting config (differs from the "
+                 "default / from the losing value); robustness case with >=2 entries."),
+        "technique": "rapid property tests: metamorphic source-equivalence and precedence relations over the extracted option list; robustness generation; native go fuzzing (thorough)",
+        "level_text": "Exhaustive over options and source pairs, sampled over values: the same value must load identically from every source and the documented precedence must hold; hostile environments and files must not panic; accepted configurations are run in-process. Exploration only.",
+        "level_note": "Command lines are kept well-formed because the flag set is ExitOnError by design; '${' is excluded from file values because the properties format defines expansion there; values have no leading/trailing blanks.",
+        "assumptions": COMMON_ASSUME,
+    },
     "C13": {
         "units": [
             {"pkg": "./c13", "run": "TestC13Sequential|TestC13SelfRedirect", "shards": 4, "shards_thorough": 16, "timeout": 900},
